@@ -390,6 +390,44 @@ func (f *Factory) binBV(op Op, a, b *Term) *Term {
 			return f.mapCLT(b, func(l *Term) *Term { return f.binBV(op, a, l) })
 		}
 	}
+	// multiplication / division / remainder by a power of two as shifts and masks
+	// (exact for wrapping machine arithmetic; signed division rounds toward zero)
+	if w <= 64 && b.Op == OpConst && b.Val == 1 {
+		switch op {
+		case OpUDiv, OpSDiv:
+			return a
+		case OpURem, OpSRem:
+			return f.Const(w, 0)
+		}
+	}
+	if w <= 64 && w > 1 {
+		if k, ok := pow2(b); ok && k > 0 {
+			kc := f.Const(w, uint64(k))
+			low := f.Const(w, (uint64(1)<<uint(k))-1)
+			switch op {
+			case OpMul:
+				return f.binBV(OpShl, a, kc)
+			case OpUDiv:
+				return f.binBV(OpLShr, a, kc)
+			case OpURem:
+				return f.binBV(OpBAnd, a, low)
+			case OpSDiv, OpSRem:
+				if k < w-1 { // 2^(w-1) is negative as a signed divisor
+					bias := f.binBV(OpBAnd, f.binBV(OpAShr, a, f.Const(w, uint64(w-1))), low)
+					q := f.binBV(OpAShr, f.binBV(OpAdd, a, bias), kc)
+					if op == OpSDiv {
+						return q
+					}
+					return f.binBV(OpSub, a, f.binBV(OpShl, q, kc))
+				}
+			}
+		}
+		if op == OpMul {
+			if k, ok := pow2(a); ok && k > 0 {
+				return f.binBV(OpShl, b, f.Const(w, uint64(k)))
+			}
+		}
+	}
 	// light identities
 	if w <= 64 {
 		switch op {
@@ -687,3 +725,11 @@ func (t *Term) str(sb *strings.Builder, depth int) {
 }
 
 var _ = bits.Len
+
+// pow2 reports whether t is a constant 2^k.
+func pow2(t *Term) (int, bool) {
+	if t.Op != OpConst || t.Val == 0 || t.Val&(t.Val-1) != 0 {
+		return 0, false
+	}
+	return bits.TrailingZeros64(t.Val), true
+}
